@@ -23,8 +23,9 @@ def demo_params(meta, demo_src):
     cmd = meta.get("demo_cmd", "")
     head = open(demo_src, encoding="utf-8", errors="replace").read(1500)
     run = re.search(r"-run\s+'?\"?([\w|^$()]+)", cmd)
+    first = re.search(r"-run\s+\S+\s+\./((?:lib|client|wallet)[\w/]*)", cmd)   # the package of the FIRST go test
     pkgs = re.findall(r"(?:^|\s)\./((?:lib|client|wallet)[\w/]*)", cmd)
-    pkg = pkgs[-1].rstrip("/") if pkgs else None
+    pkg = first.group(1).rstrip("/") if first else (pkgs[-1].rstrip("/") if pkgs else None)
     if not pkg:
         m = re.search(r"(?:/mut-C\d+|<repo>)/((?:lib|client|wallet)[\w/]*?)/?(?:\s|&|$)", cmd) or re.search(r"\b((?:lib|client|wallet)(?:/\w+)*)/", head)
         pkg = m.group(1).rstrip("/") if m else None
